@@ -19,7 +19,7 @@
 From Coq Require Import List NArith Bool Arith.
 From SV Require Import model.Graph model.GraphInv.
 From SV Require Import lib.Bytes lib.SqlExpr gen.GenSched model.Sched proofs.SchedProofs proofs.SchedPrims
-  proofs.SchedSeq proofs.SchedTermination.
+  proofs.SchedSeq proofs.SchedTermination model.SchedDefer proofs.SchedDeferProofs.
 From SV Require Import model.SchedGraph proofs.SchedGraphCpl proofs.SchedGraphBelow
   proofs.SchedGraphSim proofs.SchedGraphErase proofs.SchedGraphAcyclic proofs.SchedGraphMachine proofs.SchedGraphRefl.
 Import ListNotations.
@@ -178,6 +178,62 @@ Theorem C10_validate_without_defer_refuted :
     exists g', update_meta outcome = Some g' /\ AllCorrect g' /\ same_decision g g' k = true /\
                g_files g' = g_files g /\ g_deps g' = g_deps g.
 Proof. exact validate_without_defer_refuted. Qed.
+
+(* ---- D39: a parked step waits for something (model/SchedDefer.v) ----
+   `deferred` is set by mark_completed (defer) and by the "digest unchanged" outcome of validate_dynamic_job.
+   DeferInv g = unique keys, and every deferred step is PENDING and has a dynamic input that is detached or not
+   CONFIRMED / BUILT.  Events: set_state, the validation outcome, defer, a file state change (with
+   mark_consuming_steps_pending when the file becomes CONFIRMED / BUILT), detached flags set or cleared,
+   new edges, reset_for_rerun + set_state, the metadata updates.  `dstep u c`: u = the trigger
+   step_node_undefer_reattached exists, c = the flag of the validation outcome is
+   step.has_unusable_dynamic_input() evaluated in the outcome transaction. *)
+
+(* The repaired shape, ALL histories: the invariant is kept ... *)
+Theorem C10_deferred_is_justified_with_repair :
+  forall evs g, DeferInv g -> DeferInv (drun true true evs g).
+Proof. exact repaired_history_keeps_invariant. Qed.
+
+(* ... hence at every moment, in particular whenever a phase ends, no step is PENDING and deferred while
+   all its dynamic inputs are attached and CONFIRMED / BUILT.  (A database without deferred steps, e.g. a new
+   one, satisfies the invariant: nothing_deferred_inv.) *)
+Theorem C10_nothing_parked_with_repair :
+  forall evs g s, DeferInv g -> In s (g_steps (drun true true evs g)) ->
+    parked_for_nothing (drun true true evs g) s = false.
+Proof. exact repaired_nothing_parked. Qed.
+
+(* For the shape the repository has (generated: trg_undefer_on_reattach, validate_unchanged_computed). *)
+Theorem C10_deferred_is_justified_repo :
+  trg_undefer_on_reattach && validate_unchanged_computed = true ->
+  forall evs g, DeferInv g -> DeferInv (drun_repo evs g).
+Proof. exact repo_history_keeps_invariant. Qed.
+
+(* D39: NOT true for the three other shapes -- repo d760e3e..3ce20a7 (no trigger, literal True), the trigger
+   alone (the outcome of a validation job that was in flight during the recycle is committed afterwards), the
+   computed flag alone (sequential history).  Witness: the history of findings.d/C10-D39.json from a
+   snapshot without any deferred step; `user` ends PENDING, deferred, all dynamic inputs usable. *)
+Theorem C10_deferred_is_justified_refuted_without_repair :
+  forall u c, u && c = false ->
+  exists g evs s, DeferInv g /\ (forall x, In x (g_steps g) -> s_deferred x = false) /\
+    In s (g_steps (drun u c evs g)) /\ parked_for_nothing (drun u c evs g) s = true /\
+    ~ DeferInv (drun u c evs g).
+Proof. exact unrepaired_shapes_refuted. Qed.
+
+Example C10_d39_history :
+  parked_b (drun false false d39_sequential g_d39) = true /\ parked_b (drun true false d39_race g_d39) = true /\
+  parked_b (drun false true d39_sequential g_d39) = true /\
+  parked_b (drun true true d39_sequential g_d39) = false /\ parked_b (drun true true d39_race g_d39) = false.
+Proof. repeat split; vm_compute; reflexivity. Qed.
+
+(* Termination of the validation outcome for both shapes of the source: if the step is in a dispatch set again
+   after an unchanged validation, its flag was computed and NO dynamic input was unusable when the outcome was
+   recorded -- the job derived then is a hash check (_derive_job: dynamic_inputs_ready), not the same
+   validation job. *)
+Theorem C10_validate_outcome_redispatched_only_as_check :
+  forall g k g' s,
+    update_meta (set_step_state g k validate_unchanged_state (validate_flag validate_unchanged_computed g k)) = Some g' ->
+    In s (dispatch_set g') -> s_key s = k ->
+    validate_unchanged_computed = true /\ unusable_dyn g k = false.
+Proof. exact validate_outcome_redispatch. Qed.
 
 (* ---- D8 (fixed by f76dbc9): the earlier dependency delete trigger ---- *)
 
